@@ -281,41 +281,61 @@ def tmgrInPlan (tb : Tables) (fs : FS) (t : Task) : Except Err (List Op × List 
 def agentTarget (sd : SD) : Str :=
   if strip sd.target = [] then "task:///".toList ++ basename sd.source else sd.target
 
+/-- what one input directive becomes on the agent side: `none` = it cannot be carried out, `some none` =
+    nothing to do (a TARBALL directive other than the one the client added for the packed tarball),
+    `some (some op)` = the operation -/
+def agentInOp (t : Task) (sd : SD) : Option (Option Op) :=
+  if sd.action = "Tarball" then
+    -- only the directive the client added for the packed tarball triggers extraction
+    (if basename (urlOf sd.target).path = tarName t.uid
+     then some (some (Op.unpack (normSegs ((urlOf t.boxes.task).path ++ '/' :: tarName t.uid))))
+     else some none)
+  else
+    match completeUrl (agentCtx t.boxes) sd.source, completeUrl (agentCtx t.boxes) (agentTarget sd) with
+    | .ok s, .ok g =>
+      if g.schema ≠ "file".toList then none
+      else (match helperOp sd.action (loc s) (loc g) with
+            | some op => some (some op)
+            | none    => none)
+    | _, _ => none
+
+def agentInStep (tb : Tables) (t : Task) (acc : List Op × Bool) (sd : SD) : List Op × Bool :=
+  if ¬ acc.2 then acc
+  else if ¬ tb.agentInDo.contains sd.action then acc
+  else
+    match agentInOp t sd with
+    | some (some op) => (acc.1 ++ [op], true)
+    | some none      => acc
+    | none           => (acc.1, false)
+
 /-- agent side: directives are resolved one by one as they are reached, so a directive that
     cannot be resolved stops the task after the earlier ones were carried out: (operations, all resolved) -/
 def agentInPlan (tb : Tables) (t : Task) (inputs : List SD) : List Op × Bool :=
-  (inputs.filter (fun sd => tb.agentIn.contains sd.action)).foldl (fun (acc : List Op × Bool) sd =>
-    if ¬ acc.2 then acc
-    else if ¬ tb.agentInDo.contains sd.action then acc
-    else if sd.action = "Tarball" then
-      -- only the directive the client added for the packed tarball triggers extraction
-      (if basename (urlOf sd.target).path = tarName t.uid
-       then (acc.1 ++ [Op.unpack (normSegs ((urlOf t.boxes.task).path ++ '/' :: tarName t.uid))], true)
-       else acc)
-    else
-      match completeUrl (agentCtx t.boxes) sd.source, completeUrl (agentCtx t.boxes) (agentTarget sd) with
-      | .ok s, .ok g =>
-        if g.schema ≠ "file".toList then (acc.1, false)
-        else (match helperOp sd.action (loc s) (loc g) with
-              | some op => (acc.1 ++ [op], true)
-              | none    => (acc.1, false))
-      | _, _ => (acc.1, false)) ([], true)
+  (inputs.filter (fun sd => tb.agentIn.contains sd.action)).foldl (agentInStep tb t) ([], true)
+
+/-- the operation one output directive becomes on the agent side: source and target resolved in the agent's
+    contexts, both local; `none` = the directive cannot be carried out -/
+def agentOutOp (t : Task) (sd : SD) : Option Op :=
+  match completeUrl (agentCtx t.boxes) sd.source, completeUrl (agentCtx t.boxes) (agentTarget sd) with
+  | .ok s, .ok g =>
+    if s.schema ≠ "file".toList then none
+    else if g.schema ≠ "file".toList then none
+    else helperOp sd.action (loc s) (loc g)
+  | _, _ => none
+
+/-- one directive in the loop of the agent side output stager: once a directive could not be carried out
+    the rest is not looked at; directives the stager lets through but does not act on are skipped -/
+def agentOutStep (tb : Tables) (t : Task) (acc : List Op × Bool) (sd : SD) : List Op × Bool :=
+  if ¬ acc.2 then acc
+  else if ¬ tb.agentOutDo.contains sd.action then acc
+  else
+    match agentOutOp t sd with
+    | some op => (acc.1 ++ [op], true)
+    | none    => (acc.1, false)
 
 def agentOutPlan (tb : Tables) (t : Task) : List Op × Bool :=
   if t.target ≠ "DONE" ∧ ¬ t.stageOnError then ([], true)
-  else
-    (t.outputs.filter (fun sd => tb.agentOut.contains sd.action)).foldl (fun (acc : List Op × Bool) sd =>
-      if ¬ acc.2 then acc
-      else if ¬ tb.agentOutDo.contains sd.action then acc
-      else
-        match completeUrl (agentCtx t.boxes) sd.source, completeUrl (agentCtx t.boxes) (agentTarget sd) with
-        | .ok s, .ok g =>
-          if s.schema ≠ "file".toList then (acc.1, false)
-          else if g.schema ≠ "file".toList then (acc.1, false)
-          else (match helperOp sd.action (loc s) (loc g) with
-                | some op => (acc.1 ++ [op], true)
-                | none    => (acc.1, false))
-        | _, _ => (acc.1, false)) ([], true)
+  else (t.outputs.filter (fun sd => tb.agentOut.contains sd.action)).foldl (agentOutStep tb t) ([], true)
 
 def tmgrOutPlan (tb : Tables) (t : Task) : Except Err (List Op) :=
   if t.target ≠ "DONE" ∧ ¬ (tb.tmgrOutOnError ∧ t.stageOnError) then .ok []
